@@ -716,6 +716,32 @@ func (ex *Exec) specCall(env *Env, e *ECall) *Value {
 		// str(b): the string holding the current contents of byte slice b
 		b := arg(0)
 		return &Value{T: types.Typ[types.String], C: []*Term{ex.backingArrayRaw(env.st, b, 0), b.C[1], b.C[2]}}
+	case "iszero":
+		x := arg(0)
+		var cs []*Term
+		for _, t := range x.C {
+			cs = append(cs, tb.Eq(t, ex.zeroOfSort(t.Sort)))
+		}
+		return ex.boolV(tb.And(cs...))
+	case "as":
+		// as(x, "T"): the interface / reference x viewed as a value of pointer type T
+		x := arg(0)
+		name, ok := e.Args[1].(*EStr)
+		if !ok {
+			specFail("as needs a literal type name")
+		}
+		t := ex.prog.lookupType(name.Val, env.pkg)
+		if t == nil {
+			specFail("as: unknown type %s", name.Val)
+		}
+		if _, isPtr := t.Underlying().(*types.Pointer); !isPtr {
+			specFail("as: %s is not a pointer type", name.Val)
+		}
+		ref := x.C[0]
+		if _, isIface := x.T.Underlying().(*types.Interface); isIface {
+			ref = x.C[1]
+		}
+		return &Value{T: t, C: []*Term{ref}}
 	case "haskeyid":
 		// haskeyid(m, k): presence of the key with abstract identity k (for quantifying over all keys)
 		m := arg(0)
